@@ -1027,3 +1027,115 @@ func ruleC14Enumerate(c *Ctx) {
 		}
 	}
 }
+
+// ---------------------------------------------------------------- R-C19-startup
+
+const textC19Startup = "R-C19-startup: the scan of the persist directory at start-up survives what it can find there: (walk-err) a directory-walk callback tests its error parameter before it touches the entry parameter (the entry is nil when the directory does not exist yet — the very first start with a new persist path); (table-lookup) no single-result read of the database table is dereferenced — a file named like a snapshot of database 16 must not make the start-up use a table entry that was never created"
+
+func ruleC19Startup(c *Ctx) {
+	c.S.Rule("R-C19-startup", textC19Startup, 1)
+	fDbs := c.Field("dataStoreSet", "dbs")
+	if fDbs == nil {
+		c.S.Undecided("R-C19-startup", "anchor", "-", "dataStoreSet.dbs not found")
+		return
+	}
+	n := 0
+	for _, fn := range c.SrcFuncs() {
+		// (walk-err) closures passed to filepath.WalkDir / filepath.Walk
+		for _, in := range instrsOf(fn) {
+			call, ok := in.(*ssa.Call)
+			if !ok {
+				continue
+			}
+			name := fullCalleeName(call)
+			if name != "path/filepath.WalkDir" && name != "path/filepath.Walk" && name != "io/fs.WalkDir" {
+				continue
+			}
+			var cb *ssa.Function
+			for _, a := range call.Call.Args {
+				switch x := stripValue(a).(type) {
+				case *ssa.MakeClosure:
+					cb, _ = x.Fn.(*ssa.Function)
+				case *ssa.Function:
+					cb = x
+				}
+			}
+			if cb == nil || len(cb.Params) < 3 {
+				continue
+			}
+			n++
+			key := fnName(cb) + ":walk-err"
+			entry, errp := cb.Params[len(cb.Params)-2], cb.Params[len(cb.Params)-1]
+			bad := ""
+			for _, in2 := range instrsOf(cb) {
+				ci, ok := in2.(ssa.CallInstruction)
+				if !ok || !ci.Common().IsInvoke() || ci.Common().Value != ssa.Value(entry) {
+					continue
+				}
+				// dominated by the nil side of a test of err, or the non-nil side of a test of the entry
+				guarded := false
+				for _, d := range cb.Blocks {
+					for _, v := range []ssa.Value{errp, entry} {
+						nn := nonNilSucc(d, v)
+						if nn == nil {
+							continue
+						}
+						side := nn
+						if v == ssa.Value(errp) {
+							side = d.Succs[0]
+							if side == nn {
+								side = d.Succs[1]
+							}
+						}
+						if len(side.Preds) == 1 && (side == in2.Block() || side.Dominates(in2.Block())) {
+							guarded = true
+						}
+					}
+				}
+				if !guarded && bad == "" {
+					bad = c.Pos(c.InstrPos(in2))
+				}
+			}
+			if bad != "" {
+				c.S.Bad("R-C19-startup", key, bad, fmt.Sprintf("the directory-walk callback in %s uses its entry parameter without having tested its error parameter: when the persist directory does not exist (first start with a new path) the entry is nil and the start-up panics", fnName(fn)))
+			} else {
+				c.S.OK("R-C19-startup", key, c.Pos(cb.Pos()), "the entry is used only after the error parameter was tested")
+			}
+		}
+		// (table-lookup) single-result reads of the database table that are dereferenced
+		k := 0
+		for _, in := range instrsOf(fn) {
+			lk, ok := in.(*ssa.Lookup)
+			if !ok || lk.CommaOk {
+				continue
+			}
+			if _, f := loadedField(lk.X); f != fDbs {
+				continue
+			}
+			k++
+			n++
+			key := fmt.Sprintf("%s:table-lookup#%d", fnName(fn), k)
+			deref := false
+			for _, r := range referrers(lk) {
+				switch x := r.(type) {
+				case ssa.CallInstruction:
+					if len(x.Common().Args) > 0 && x.Common().Args[0] == ssa.Value(lk) && !knownNonNilIn(lk, r.Block()) {
+						deref = true
+					}
+				case *ssa.FieldAddr:
+					if !knownNonNilIn(lk, r.Block()) {
+						deref = true
+					}
+				}
+			}
+			if deref {
+				c.S.Bad("R-C19-startup", key, c.Pos(lk.Pos()), fmt.Sprintf("%s reads the database table with the single-result form and uses the entry without a nil test: an index that was never created (a stray file named like the snapshot of database 16) is a nil dereference at start-up", fnName(fn)))
+			} else {
+				c.S.OK("R-C19-startup", key, c.Pos(lk.Pos()), "the entry is nil-tested before use")
+			}
+		}
+	}
+	if n == 0 {
+		c.S.Trivial("R-C19-startup", "none", "-", "no directory walk and no single-result read of the database table")
+	}
+}
